@@ -727,28 +727,14 @@ func (s *storeSim) yield(site string) {
 	t.parked = false
 }
 
-func (s *storeSim) doPar(batch []opSpec) {
-	w := s.w
-	before := s.scan()
-	sched := newPrng(uint64(s.p.cfg("sched")) + uint64(s.opIdx))
-	type putRes struct {
-		id    [32]byte
-		val   []byte
-		err   error
-		isGet bool // a concurrent reader: val is what Get returned
-	}
-	res := make([]*putRes, len(batch))
+// runTasks runs the functions as tasks of the seeded yield scheduler: every task parks before its first
+// statement and at every yield point of the instrumented store; the scheduler resumes one parked task at
+// a time (mostly the same one, sometimes another) until all have returned.
+func (s *storeSim) runTasks(sched *prng, fns []func()) (trace []byte, stuck bool) {
 	var tasks []*ytask
 	s.yieldOn = true
-	for i, op := range batch {
-		id := s.ids[int(op.n(0))%len(s.ids)]
-		pr := &putRes{id: id, isGet: op.K == "pget"}
-		if !pr.isGet {
-			pr.val = valueFor(op.n(2), op.n(1))
-			s.ever[id] = append(s.ever[id], pr.val)
-		}
-		res[i] = pr
-		t := &ytask{name: fmt.Sprintf("put%d", i), resume: make(chan struct{})}
+	for i, fn := range fns {
+		t := &ytask{name: fmt.Sprintf("task%d", i), resume: make(chan struct{})}
 		tasks = append(tasks, t)
 		started := make(chan struct{})
 		go func() {
@@ -758,17 +744,12 @@ func (s *storeSim) doPar(batch []opSpec) {
 			t.parked = true
 			<-t.resume
 			t.parked = false
-			if pr.isGet {
-				pr.val, pr.err = s.st.Get(nil, pr.id[:])
-			} else {
-				pr.err = s.st.Put(nil, pr.id[:], pr.val)
-			}
+			fn()
 			t.done = true
 		}()
 		<-started
 	}
 	steps := 0
-	var trace []byte
 	for {
 		synctest.Wait()
 		var runnable []int
@@ -789,7 +770,7 @@ func (s *storeSim) doPar(batch []opSpec) {
 			time.Sleep(time.Millisecond)
 			steps++
 			if steps > 200000 {
-				w.violate("C05", "stuck", "concurrent puts did not finish")
+				stuck = true
 				break
 			}
 			continue
@@ -813,6 +794,41 @@ func (s *storeSim) doPar(batch []opSpec) {
 	s.yieldOn = false
 	for g := range s.tasks {
 		delete(s.tasks, g)
+	}
+	return trace, stuck
+}
+
+func (s *storeSim) doPar(batch []opSpec) {
+	w := s.w
+	before := s.scan()
+	sched := newPrng(uint64(s.p.cfg("sched")) + uint64(s.opIdx))
+	type putRes struct {
+		id    [32]byte
+		val   []byte
+		err   error
+		isGet bool // a concurrent reader: val is what Get returned
+	}
+	res := make([]*putRes, len(batch))
+	var fns []func()
+	for i, op := range batch {
+		id := s.ids[int(op.n(0))%len(s.ids)]
+		pr := &putRes{id: id, isGet: op.K == "pget"}
+		if !pr.isGet {
+			pr.val = valueFor(op.n(2), op.n(1))
+			s.ever[id] = append(s.ever[id], pr.val)
+		}
+		res[i] = pr
+		fns = append(fns, func() {
+			if pr.isGet {
+				pr.val, pr.err = s.st.Get(nil, pr.id[:])
+			} else {
+				pr.err = s.st.Put(nil, pr.id[:], pr.val)
+			}
+		})
+	}
+	trace, stuck := s.runTasks(sched, fns)
+	if stuck {
+		w.violate("C05", "stuck", "concurrent puts did not finish")
 	}
 	switches := 0
 	for i := 1; i < len(trace); i++ {
